@@ -11,6 +11,12 @@ CHECKS = [
              "matrix entries and scalar factors, on every path through the simplification code; capability masks are checked "
              "against the composition rule. Bounded (tree shape/size), hence not a proof.",
      "design_ref": "DESIGN.md 4/C01"},
+    {"property_id": "C02", "engine": "A", "category": "other", "technique": TECH_A, "note": NOTE_A + " Operators backed by C++/SciPy kernels (SHT, NFFT, LOS) are outside the claim.",
+     "text": "Bounded symbolic verification per operator class and constructor configuration (26 classes, 116 configurations "
+             "x real/complex): for ALL inputs z3 refutes violations of adjointness, linearity (symbolic scalar), "
+             "inverse-where-advertised and of the class's documented action formula; domains and input immutability checked "
+             "on every path. Bounded by the enumerated configurations and domain sizes (<= 16 pixels).",
+     "design_ref": "DESIGN.md 4/C02"},
 ]
 
 ALL = [f"C{i:02d}" for i in range(1, 37)]
